@@ -527,8 +527,9 @@ func runCase(c *vh.Ctx, cf *vh.CaseFile, direct bool, it *vh.Item, start, ttl *u
 // generators
 
 type gen struct {
-	r *vh.Rng
-	b uint64 // the case's boundary slot
+	r   *vh.Rng
+	b   uint64 // the case's boundary slot
+	top int    // depth of the root call: the root of a deep script is a non-empty combinator
 }
 
 func (g *gen) form(n uint64) vh.Form {
@@ -618,8 +619,15 @@ func (g *gen) script(depth, width int, malformed, guards bool) *vh.Item {
 	if depth <= 1 {
 		k = []int{0, 0, 4, 5, 4, 5, 0, 6, 4, 5}[k]
 	}
+	forced := depth > 1 && (depth == g.top || g.r.Chance(1, 2))
+	if forced {
+		k = 1 + g.r.Intn(3)
+	}
 	subs := func() []*vh.Item {
 		n := g.r.Intn(width + 1)
+		if forced && n == 0 {
+			n = 1 + g.r.Intn(width)
+		}
 		xs := make([]*vh.Item, n)
 		for i := range xs {
 			xs[i] = g.script(depth-1, width, malformed, guards)
@@ -786,7 +794,7 @@ func run(c *vh.Ctx) error {
 		return nil
 	}
 	corpus(c, cf)
-	n := c.Pick(1000, 12000)
+	n := c.Pick(1000, 6000)
 	for i := 0; i < n; i++ {
 		g := &gen{r: c.Rng, b: boundaries[c.Rng.Intn(len(boundaries))]}
 		depth := 2 + c.Rng.Intn(c.Pick(2, 3))
@@ -795,6 +803,7 @@ func run(c *vh.Ctx) error {
 		}
 		malformed := c.Rng.Chance(1, 8)
 		withGuards := c.Rng.Chance(1, 10)
+		g.top = depth
 		it := g.script(depth, 3, malformed, withGuards)
 		start, ttl := g.bound(), g.bound()
 		var gl []guard
